@@ -125,8 +125,8 @@ def rule_bind_ownership(em, rep, rid):
         # (b) dominated by "not bound"
         okb = False
         for t in dom[n]:
-            if t.kind == 'test' and cell.mentions_state(t.ast):
-                lab = cell.unbound_label(t.ast, recv)
+            if t.kind == 'test' and (cell.mentions_state(t.ast) or isinstance(t.ast, (ast.Compare, ast.UnaryOp, ast.Name))):
+                lab = cell.unbound_label(t.ast, recv, f)
                 if lab is None:
                     continue
                 # the store must be unreachable when the unbound edge is removed
